@@ -67,7 +67,7 @@ PROPS = {
     "C03": {
         "ops": [("of", FF, 12000, 400000), ("wrap", FF, 4000, 150000), ("wsl", FF, 4000, 100000), ("fill2", FF, 2000, 50000), ("api", FF, 1, 1), ("walg", FF, 3000, 60000)],
         "colmin": True,
-        "explanation": "theorems: the DP value is a lower bound for EVERY arrangement (Bellman, <=2 line widths), attained by back-tracking any true column minima (conditional on ColMin for smawk, which is not proved), the reference search satisfies ColMin, three widths are a counterexample, wrap hands exactly two widths to the algorithm; L1/L2: exact cost (Q) of the implementation's arrangement = the DP optimum for every generated fragment list inside the precondition, and for every paragraph partition recorded at the wrap level; on integer-valued cases the verdict is that of the extracted Coq function optimal_b, proved sound and complete for 'minimum cost over all arrangements' (C03_checker_sound / _complete)",
+        "explanation": "theorems: the DP value is a lower bound for EVERY arrangement (Bellman, <=2 line widths), attained by back-tracking any true column minima (conditional on ColMin for smawk, which is not proved), the reference search satisfies ColMin, three widths are a counterexample, wrap hands exactly two widths to the algorithm and (C03_wrap_level_paragraphs, reference oracle) every paragraph's lines are rendered from a minimum-cost chain of its own fragments; L1/L2: exact cost (Q) of the implementation's arrangement = the DP optimum for every generated fragment list inside the precondition, and for every paragraph partition recorded at the wrap level; on integer-valued cases the verdict is that of the extracted Coq function optimal_b, proved sound and complete for 'minimum cost over all arrangements' (C03_checker_sound / _complete)",
         "assumptions": ["ColMin: smawk::online_column_minima returns true column minima on this matrix — NOT proved, exercised on every generated case by the exact-cost comparison"],
     },
     "C06": {
@@ -77,7 +77,7 @@ PROPS = {
     },
     "C07": {
         "ops": [("ff", FF, 15000, 400000), ("ff", MIN, 4000, 60000), ("wrap", FF, 3000, 60000), ("wrap", MIN, 2000, 40000), ("walg", FF, 3000, 60000), ("walg", MIN, 1500, 30000)],
-        "explanation": "theorems: first_fit is Greedy and Greedy determines the arrangement uniquely (NumZ); greedy_b is proved equivalent to Greedy and run (Q arithmetic) on the implementation's lines; text level through the wrap correspondence",
+        "explanation": "theorems: first_fit is Greedy and Greedy determines the arrangement uniquely (NumZ); greedy_b is proved equivalent to Greedy and run (Q arithmetic) on the implementation's lines; C07_wrap_level: for every paragraph of a text the lines wrap returns are rendered from the unique greedy grouping of that paragraph's own fragments for its own widths (only the first paragraph's first line is measured against the initial indent); L2 also at the text level (every reading of wrap's lines as groups is enumerated, one must be greedy) and on WrapAlgorithm::wrap called directly with 1-5 widths",
         "assumptions": ["f64 = exact Z/Q on the generated range"],
     },
     "C09": {
@@ -136,8 +136,8 @@ PROPS = {
     },
     "C20": {
         "ops": [("wc", FF, 5000, 120000), ("wc", MIN, 1500, 30000)],
-        "explanation": "theorems C20_total/shape/column_major/row_width; L2 rebuilds the rows from wrap's lines at the column width and compares",
-        "assumptions": ["cw SP = 1; columns small enough to iterate"],
+        "explanation": "theorems C20_total/shape/column_major/row_width (the equal-width clause for gaps without ESC and wrapped lines that end outside an escape sequence; otherwise the listed known finding LineEndsInsideEscape, witness known_D10_C20); L2 rebuilds the rows from wrap's lines at the column width and compares, and checks equal display widths whenever every component of a row ends outside an escape sequence",
+        "assumptions": ["cw SP = 1; columns small enough to iterate; dw(mid)*(columns-1) <= usize::MAX"],
     },
 }
 NOT_CLAIMED = {}
